@@ -96,6 +96,7 @@ type gedge struct {
 	parent GKey
 	ev     GEvent
 	depth  int32
+	seq    int32 // discovery index (the merge is sequential and deterministic, local-state ids are not)
 }
 
 type Found struct {
@@ -767,7 +768,7 @@ outer:
 					if _, ok := e.visited[sc.ng]; ok {
 						continue
 					}
-					e.visited[sc.ng] = gedge{parent: g, ev: sc.ev, depth: depth + 1}
+					e.visited[sc.ng] = gedge{parent: g, ev: sc.ev, depth: depth + 1, seq: int32(e.States + 1)}
 					e.States++
 					e.checkGlobal(sc.ng, g, sc.ev)
 					next = append(next, sc.ng)
@@ -1123,4 +1124,13 @@ func ReplayLive(cfg Cfg, rf ReplayFile) (bool, string, []string) {
 	}
 	ok, why, _, log, _ := e.extend(g, *rf.Live, true)
 	return ok, why, log
+}
+
+// MsgsByPrim: how many distinct messages each adversary primitive contributed ("" = honest outputs).
+func (e *Engine) MsgsByPrim() map[string]int {
+	r := map[string]int{}
+	for i := 0; i < e.nm; i++ {
+		r[e.msgs[i].Prim]++
+	}
+	return r
 }
